@@ -199,6 +199,11 @@ def main(tier):
         removable = [i for i, s in enumerate(sents)
                      if re.match(r'\s*It is (prohibited|required|preferred)', corpus.split_headers(s)[1]) and not corpus.split_headers(s)[0]]
         jobs.append((t, sents, removable))
+    # a constant declared AFTER a sentence that uses its name as a plain value (constants in force BEFORE a sentence are what counts)
+    for sents in (['A color is one of red, green.', 'A node goes from 1 to 2.', 'red is a constant equal to 3.'],
+                  ['A node is identified by an id.', 'There is a node with id equal to top.', 'Every node can be chosen.', 'top is a constant equal to 5.'],
+                  ['A size is one of small, big.', 'It is prohibited that there is a size with id equal to big.', 'big is a constant equal to 2.']):
+        jobs.append(('\n'.join(sents) + '\n', sents, []))
     full_jobs = []
     for text, sents, removable in jobs:
         n = len(sents)
@@ -232,7 +237,11 @@ def main(tier):
             pl = strip_trailing_directives(pr[1])
             if not is_prefix(pl, full):
                 i = next((j for j, (a, b) in enumerate(zip(pl, full)) if a != b), min(len(pl), len(full)))
-                run.violation('prefix/not-a-prefix', f'rule {i} of the prefix is {pl[i] if i < len(pl) else None!r}, of the whole program {full[i] if i < len(full) else None!r}',
+                # the failing construct, for the known-findings file: a constant declared after the cut whose name an earlier rule prints
+                later = [m.group(1) for st in sents[k:] for m in [re.match(r'\s*(\w+) is a constant\b', corpus.split_headers(st)[1])] if m]
+                changed = pl[i] if i < len(pl) else ''
+                lc = '/later-constant' if any(re.search(r'(?<![A-Za-z0-9_])"?' + re.escape(c) + r'"?(?![A-Za-z0-9_])', changed) for c in later) else ''
+                run.violation('prefix/not-a-prefix' + lc, f'rule {i} of the prefix is {pl[i] if i < len(pl) else None!r}, of the whole program {full[i] if i < len(full) else None!r}',
                               dict(replay, prefix_rules=pl[:i + 2], full_rules=full[:i + 2]))
         for i, before, incl, without in r['removal']:
             run.count(('removal', text, i))
